@@ -34,7 +34,14 @@ func init() {
 }
 
 func runC06(c *fw.Ctx) {
-	sc := scen.DrawScenario(c, scen.ScenarioOpts{CMPPerMille: cmpRate(c, 25), MinN: 3, MaxN: 5, OnlyMulti: true, AllowXor: false})
+	var sc *scen.Scenario
+	if c.S.Draw(8, "toy") == 7 {
+		// the handler's echo mechanism under round shapes no shipped protocol has (a reliable broadcast
+		// followed by a point-to-point-only round, by a plain broadcast, ...)
+		sc = scen.DrawToy(c, 3)
+	} else {
+		sc = scen.DrawScenario(c, scen.ScenarioOpts{CMPPerMille: cmpRate(c, 25), MinN: 3, MaxN: 5, OnlyMulti: true, AllowXor: false})
+	}
 	parts := sc.Parts
 	cheater := parts[c.S.Draw(len(parts), "cheater")]
 	var honest []party.ID
@@ -81,6 +88,9 @@ func runC06(c *fw.Ctx) {
 	// candidate rounds: broadcast rounds followed by a further round
 	var cands []int
 	for i, p := range points {
+		if sc.Kind == scen.KToy && !sc.Shapes[p.round-2].Reliable {
+			continue // a plain broadcast promises nothing
+		}
 		if p.round < final {
 			cands = append(cands, i)
 		}
